@@ -2,6 +2,8 @@ SPECIFICATION Spec
 CONSTANTS
   MaxDepth = 3
   MaxCalls = 4
+  MaxDirectDepth = 2
+  DirectCalls = 3
   MaxCut = 2
 INVARIANT Transparent
 INVARIANT WorstOnlyFromCutoff
@@ -9,6 +11,7 @@ INVARIANT CountLaw
 INVARIANT BaseLaw
 INVARIANT BudgetHard
 INVARIANT CutoffPrefix
+INVARIANT CutoffOwnBudget
 INVARIANT PrecisionFirstHit
 PROPERTY Sticky
 PROPERTY CountersNeverDecrease
